@@ -131,7 +131,7 @@ def parse_discrete(line):
     return names, descr, log, neq
 
 
-def check_model_case(ctx: Ctx, case, model_reply):
+def check_model_case(ctx: Ctx, case, model_reply, value_site="equation-meaning"):
     """case: dict(sm, variants=[(source, ctx_spec, log_choice, features, used)], data, t)"""
     sm, data, t = case["sm"], case["data"], case["t"]
     subs = {n: e for n, e in sm["subs"]}
@@ -157,7 +157,7 @@ def check_model_case(ctx: Ctx, case, model_reply):
     first_line = None
     for vi, var in enumerate(case["variants"]):
         source, spec, log_choice, features, used = var
-        payload = {"stream": "model", "sm": sm, "source": source, "ctx_spec": spec, "log_choice": log_choice, "features": features,
+        payload = {"stream": "model", "lean": case.get("lean", True), "sm": sm, "source": source, "ctx_spec": spec, "log_choice": log_choice, "features": features, "value_site": value_site,
                    "data": {n: {str(p): str(v) for p, v in row.items()} for n, row in data.items()}, "t": t}
         line, dyn, std = impl_model(source, spec, data, t)
         ctx.evaluations += 1
@@ -202,7 +202,7 @@ def check_model_case(ctx: Ctx, case, model_reply):
                 ok = (Fraction(g) == w) if (cls == "D" and math.isfinite(g)) else (cls == "T" and abs(g - w) <= 1e-9 * scale)
                 ctx.count("class-" + cls)
                 if not ok:
-                    ctx.fail(site_for(features, "equation-meaning"), dict(payload, equation=i, version=ver),
+                    ctx.fail(site_for(features, value_site), dict(payload, equation=i, version=ver),
                              f"{ver} equation {i} evaluates to {g!r}, the equation as written gives {str(w)} (class {cls})")
         # values: Lean model (one reply per variant)
         rep = model_reply[vi] if model_reply else None
@@ -607,6 +607,70 @@ def impl_keyword(kw):
 
 
 # ---------------------------------------------------------------------------------------
+# the `functions` stream: every function the language offers inside equations, in every documented arity
+# ---------------------------------------------------------------------------------------
+
+def live_function_table():
+    """names that irispie injects into the globals of every compiled equation (read from the implementation, so that a new
+    entry without a documented meaning in the oracle is reported, not silently skipped)"""
+    from irispie.aldi import adaptations as _ad
+    return sorted(_ad.add_function_adaptations_to_context({}).keys())
+
+
+def gen_function_case(rng: Rng, fname: str, arity: int):
+    """x = <expression around one call of fname with `arity` arguments>; arguments are names, parameters, literals,
+    shifted names, expressions and nested calls; arguments that must be positive (log/sqrt argument, standard deviation) are"""
+    decls = [["tv", "x", ""], ["tv", "y", ""], ["par", "mu", ""], ["par", "sigma", ""], ["par", "w8", ""], ["exo", "z", ""]]
+    pools = {"tv": [("name", "x"), ("name", "y")], "par": [("name", "mu"), ("name", "sigma"), ("name", "w8")], "exo": [("name", "z")]}
+    g = L.TreeGen(rng, pools, [], False)
+    roles = ["tv", "par", "exo"]
+    pos_idx = L.POSITIVE_ARGS.get(fname, ())
+
+    def arg(i):
+        if i in pos_idx:
+            c = rng.weighted([("par", 3), ("lit", 2), ("pos", 2)])
+            if c == "par": return ["name", rng.choice(["sigma", "w8", "mu"]), 0]
+            if c == "lit": return ["num", rng.choice(["5/2", "2", "1/2", "3", "5/4", "1/4", "1"])]
+            return g.pos(roles, 1)
+        c = rng.weighted([("name", 3), ("par", 2), ("lit", 1.5), ("expr", 2), ("call", 1)])
+        if c == "name": return g.leaf_name(["tv", "exo"])
+        if c == "par": return ["name", rng.choice(["mu", "sigma", "w8"]), 0]
+        if c == "lit": return ["num", rng.choice(L.CONSTS)] if rng.chance(0.7) else ["neg", ["num", rng.choice(L.POS_CONSTS)]]
+        if c == "expr": return ["bin", rng.choice(["-", "+", "*"]), g.leaf_name(roles), g.leaf_name(roles)]
+        return ["fn", rng.choice(["logistic", "abs", "exp"]), [["bin", "-", g.leaf_name(["tv"]), ["name", "mu", 0]]]]
+    call = ["fn", fname, [arg(i) for i in range(arity)]]
+    if fname == "exp":
+        call = ["fn", "exp", [["bin", "-", g.leaf_name(["tv"]), g.leaf_name(["par"])]]]
+    wrap = rng.weighted([("bare", 3), ("scaled", 2), ("sum", 2), ("pf", 1)])
+    if wrap == "scaled": rhs = ["bin", "*", ["num", rng.choice(L.POS_CONSTS)], call]
+    elif wrap == "sum": rhs = ["bin", rng.choice(["+", "-"]), call, g.leaf_name(roles)]
+    elif wrap == "pf": rhs = ["bin", "+", call, ["pf", "diff", None, ["name", "y", 0]]]
+    else: rhs = call
+    eqs = [{"kind": "T", "descr": "", "dyn": ["eq", ["name", "x", 0], rhs], "steady": None},
+           {"kind": "T", "descr": "", "dyn": ["eq", ["name", "y", 0], ["bin", "*", ["name", "w8", 0], ["name", "y", -1]]], "steady": None}]
+    sm = {"decls": decls, "decl_groups": [], "family_tokens": [], "eqs": eqs, "eq_groups": [], "subs": [], "logset": [], "features": []}
+    data = L.gen_data(rng.fork("data"), sm, T0, T0 - 1)
+    variants = [L.Renderer(rng.fork(f"render{v}"), sm, plain=(v == 0)).render() for v in range(2)]
+    return {"sm": sm, "data": data, "t": T0, "variants": variants, "lean": False}
+
+
+def run_functions_stream(ctx: Ctx, reps: int):
+    rng = ctx.rng.fork("functions")
+    live = live_function_table() + sorted(L.context_functions())
+    for fname in live:
+        if fname not in L.DOCUMENTED_FUNCTIONS:
+            ctx.count("function-without-documented-meaning:" + fname)     # new table entry: the oracle has to learn it
+            continue
+    for fname, (arities, _) in sorted(L.DOCUMENTED_FUNCTIONS.items()):
+        for arity in arities:
+            for i in range(reps):
+                case = gen_function_case(rng.fork(f"{fname}/{arity}/{i}"), fname, arity)
+                check_model_case(ctx, {**case}, None, value_site="equation-function-meaning")
+                ctx.count(f"function:{fname}/{arity}")
+                ctx.nontriv(("function", fname, arity, case["sm"]["eqs"][0]["dyn"][2][0]))
+
+
+# ---------------------------------------------------------------------------------------
 # entry points
 # ---------------------------------------------------------------------------------------
 
@@ -626,8 +690,9 @@ def replay_payload(ctx: Ctx, p, with_model=True):
         data = {n: {int(k): Fraction(v) for k, v in row.items()} for n, row in p["data"].items()}
         case = {"sm": p["sm"], "data": data, "t": p["t"],
                 "variants": [(p["source"], p["ctx_spec"], p["log_choice"], p.get("features", []), [])]}
-        rep = ctx.model("C04", model_lines(case)) if with_model else None
-        check_model_case(ctx, case, rep)
+        rep = ctx.model("C04", model_lines(case)) if (with_model and p.get("lean", True)) else None
+        case["lean"] = p.get("lean", True)
+        check_model_case(ctx, case, rep, p.get("value_site", "equation-meaning"))
 
 
 def run_corpus(ctx: Ctx):
@@ -644,6 +709,7 @@ def run(ctx: Ctx):
                 "and, for the prep stream, distinct (items, #for, #if, non-trivial output) shapes of directive sequences")
     run_corpus(ctx)
     run_tables(ctx)
+    run_functions_stream(ctx, ctx.n(8, 120))
     run_prep_stream(ctx, ctx.n(2500, 60000))
     run_model_stream(ctx, ctx.n(450, 14000))
 
@@ -658,6 +724,7 @@ def search(ctx: Ctx, seeds):
                 pass
         elif isinstance(c, dict) and "source" in c and "sm" in c:
             pass
+    run_functions_stream(ctx, 40)
     run_prep_stream(ctx, 6000, with_model=False)
     run_model_stream(ctx, 1200, with_model=False)
 
